@@ -336,6 +336,8 @@ func (tree *ParserT) parseStatement(exec bool) error {
 					return err
 				}
 				appendToParam(tree, value...)
+				// like '...' and "...", an empty %() is still a parameter
+				tree.statement.canHaveZeroLenStr = true
 			default:
 				appendToParam(tree, r)
 			}
